@@ -432,7 +432,49 @@ func evalAttemptModeB(src string, opts, optsB []risor.Option, repl map[object.Ob
 	}
 	var v object.Object
 	var err error
-	if mode == "keptconfig" {
+	if mode == "sharedcode" {
+		// the host compiles the script ONCE and runs the one code object under this configuration and under a
+		// second, more permissive one (same top-level names), each on a VM of its own; then it uses the first VM
+		// again (vm.Call of a function the script defined): what that function reaches is still decided by the
+		// first configuration
+		cfgA := risor.NewConfig(all...)
+		cfgB := risor.NewConfig(append([]risor.Option{risor.WithOS(vos)}, optsB...)...)
+		if strings.Join(cfgA.GlobalNames(), ",") != strings.Join(cfgB.GlobalNames(), ",") {
+			return N{"ok": false, "l": "n/a", "r": "", "skip": true}
+		}
+		wrapped := "func zzprobe() {\nreturn " + src + "\n}\n1"
+		if strings.Contains(src, "\n") {
+			lines := strings.Split(src, "\n")
+			wrapped = "func zzprobe() {\n" + strings.Join(lines[:len(lines)-1], "\n") + "\nreturn " + lines[len(lines)-1] + "\n}\n1"
+		}
+		prog, perr := parser.Parse(ctx, wrapped)
+		if perr != nil {
+			return N{"ok": false, "l": strings.SplitN(perr.Error(), "\n", 2)[0], "r": ""}
+		}
+		code, cerr := compiler.Compile(prog, cfgA.CompilerOpts()...)
+		if cerr != nil {
+			return N{"ok": false, "l": strings.SplitN(cerr.Error(), "\n", 2)[0], "r": ""}
+		}
+		vmA := vm.New(code, cfgA.VMOpts()...)
+		if err = vmA.Run(ctx); err == nil {
+			vmB := vm.New(code, cfgB.VMOpts()...)
+			if berr := vmB.Run(ctx); berr == nil {
+				if fb, gerr := vmB.Get("zzprobe"); gerr == nil {
+					if fnB, ok := fb.(*object.Function); ok {
+						_, _ = vmB.Call(ctx, fnB, nil)
+					}
+				}
+			}
+			var fo object.Object
+			if fo, err = vmA.Get("zzprobe"); err == nil {
+				if fn, ok := fo.(*object.Function); ok {
+					v, err = vmA.Call(ctx, fn, nil)
+				} else {
+					err = fmt.Errorf("harness: zzprobe is not a function")
+				}
+			}
+		}
+	} else if mode == "keptconfig" {
 		// the host keeps Config values: this configuration is initialised, then a second, more permissive one that
 		// uses the SAME replacement objects (optsB: the overrides only), then the script runs under the first
 		cfgA := risor.NewConfig(all...)
@@ -491,9 +533,17 @@ func caseWorker(req N) (resp N) {
 		for _, d := range req["deny"].([]any) {
 			deny = append(deny, strings.Join(strs(d), "."))
 		}
-		if len(deny) == 1 {
+		// the denylist is the UNION of all the options that name something: one list, one name per option, or a
+		// base policy followed by a further list (by configuration id)
+		id, _ := req["id"].(float64)
+		switch {
+		case len(deny) == 1:
 			opts = append(opts, risor.WithoutGlobal(deny[0]))
-		} else if len(deny) > 1 {
+		case len(deny) > 1 && int(id)%3 == 1:
+			opts = append(opts, risor.WithoutGlobal(deny[0]), risor.WithoutGlobals(deny[1:]...))
+		case len(deny) > 2 && int(id)%3 == 2:
+			opts = append(opts, risor.WithoutGlobals(deny[:2]...), risor.WithoutGlobals(deny[2:]...))
+		case len(deny) > 1:
 			opts = append(opts, risor.WithoutGlobals(deny...))
 		}
 		// one replacement object per kind and configuration (the spec has one node per kind)
@@ -533,9 +583,15 @@ func caseWorker(req N) (resp N) {
 			if len(req["ov"].([]any)) > 0 {
 				modes = append(modes, "keptconfig")
 			}
+			if st == "dot" || st == "getattr" {
+				modes = append(modes, "sharedcode")
+			}
 			for _, mode := range modes {
 				o, repl := build()
 				r := evalAttemptModeB(src, o, lastOptsB, repl, mode)
+				if skip, _ := r["skip"].(bool); skip {
+					continue
+				}
 				r["p"] = pi + 1
 				r["s"] = st
 				r["vm"] = mode
